@@ -41,9 +41,32 @@ def strip_comments(src: str) -> str:
     return "".join(out)
 
 
-def hygiene() -> list[str]:
+def closure(targets: list[str]) -> list[Path]:
+    """The .v files a property depends on: its targets' sources plus everything they `Require` from XV,
+    transitively (so that another property's half-written file cannot fail this check)."""
+    todo = [COQ / t.replace(".vo", ".v") for t in targets]
+    seen: dict[Path, None] = {}
+    while todo:
+        f = todo.pop()
+        if f in seen or not f.exists():
+            continue
+        seen[f] = None
+        src = strip_comments(f.read_text())
+        mods = []
+        for m in re.finditer(r"From\s+XV\s+Require\s+(?:Import\s+|Export\s+)?(.*?)\.(?=\s|$)", src, re.S):
+            mods += m.group(1).split()
+        for m in re.finditer(r"(?<![\w.])Require\s+(?:Import\s+|Export\s+)?(.*?)\.(?=\s|$)", src, re.S):
+            mods += [x[3:] for x in m.group(1).split() if x.startswith("XV.")]
+        for mod in mods:
+            cand = COQ / (mod.replace(".", "/") + ".v")
+            if cand.exists():
+                todo.append(cand)
+    return sorted(seen)
+
+
+def hygiene(files: list[Path] | None = None) -> list[str]:
     hits = []
-    for p in sorted(COQ.rglob("*.v")):
+    for p in (sorted(COQ.rglob("*.v")) if files is None else files):
         src = strip_comments(p.read_text())
         # string literals may legitimately contain words; drop them
         src = re.sub(r'"(?:[^"]|"")*"', '""', src)
@@ -97,7 +120,9 @@ def run_property(pid: str, tier: str, seed: int, replay: str | None) -> int:
         if replay:
             data = json.loads(Path(replay).read_text())
             return mod.replay(ctx, data) if hasattr(mod, "replay") else generic_replay(mod, ctx, data)
-        hits = [h for h in hygiene()]
+        deps = closure(list(mod.COQ_TARGETS) + [getattr(mod, "PROPS_FILE", f"Props/{pid}.v").replace(".v", ".vo")])
+        hits = hygiene(deps)
+        ctx.coverage["coq_files_in_dependency_closure"] = [str(d.relative_to(COQ)) for d in deps]
         if hits:
             ctx.broken.append({"hygiene": hits[:10]})
         gen_ok = True
@@ -107,6 +132,12 @@ def run_property(pid: str, tier: str, seed: int, replay: str | None) -> int:
             except Untranslatable as e:
                 gen_ok = False
                 ctx.broken.append({"translator": str(e)})
+        if hasattr(mod, "generate"):   # generated files exist only now: re-scan the closure
+            deps = closure(list(mod.COQ_TARGETS) + [getattr(mod, "PROPS_FILE", f"Props/{pid}.v").replace(".v", ".vo")])
+            hits2 = [h for h in hygiene(deps) if h not in hits]
+            ctx.coverage["coq_files_in_dependency_closure"] = [str(d.relative_to(COQ)) for d in deps]
+            if hits2:
+                ctx.broken.append({"hygiene": hits2[:10]})
         br = ctx.coq_build(mod.COQ_TARGETS, getattr(mod, "PROPS_FILE", f"Props/{pid}.v"))
         ctx.proof_ok = br.ok and gen_ok
         if not br.ok:
@@ -120,7 +151,8 @@ def run_property(pid: str, tier: str, seed: int, replay: str | None) -> int:
         ctx.broken.append({"harness_exception": tb[-2000:]})
         ctx.violation({"no_longer_checks": ctx.broken}, nofail=True)
     finally:
-        ctx.write_evidence(getattr(mod, "LEVEL", "proof"))
+        if not replay:
+            ctx.write_evidence(getattr(mod, "LEVEL", "proof"))
         ctx.cleanup()
     n = len(ctx.violations)
     print(f"{pid} tier={tier} seed={seed}: obligations {ctx.discharged}/{ctx.obligations}, "
